@@ -12,7 +12,7 @@ for p in sorted((V / "fixes").glob("*.patch")):
     subj = re.sub(r"^\[PATCH[^\]]*\]\s*", "", " ".join((msg["Subject"] or "").split()))
     patch_commit[p.name] = by_subject.get(subj)
 for f in sorted((V / "known_findings.d").glob("*.json")):
-    d = json.loads(f.read_text()); ch = False
+    d = json.loads(f.read_text()); ch = False; last = None
     for e in d["findings"]:
         if e.get("kind") != "fixed":
             continue
@@ -23,6 +23,10 @@ for f in sorted((V / "known_findings.d").glob("*.json")):
             for k in cands:
                 if patch_commit.get(k) and patch_commit[k] not in commits:
                     commits.append(patch_commit[k])
+        if not commits and not e.get("commit") and re.search(r"same (patch|repair)", e.get("what", "")) and last:
+            commits = last
+        if commits:
+            last = commits
         if commits and e.get("commit") != " ".join(commits):
             e["commit"] = " ".join(commits); ch = True
     if ch:
